@@ -252,6 +252,12 @@ func newSystem(c config) (*system, error) {
 
 func (s *system) arrive(st *stream, v int64) error {
 	st.feed.Next = hk.RawRTP(96, uint16(v), uint32(v*3000), st.ssrc, []byte{1, 2, 3})
+	if v%4 == 3 {
+		// a padding-only packet (a bandwidth probe on the media SSRC): padding bit set, the three octets after
+		// the header are padding with the count in the last one. It was received like any other packet.
+		st.feed.Next = hk.RawRTP(96, uint16(v), uint32(v*3000), st.ssrc, []byte{0, 0, 3})
+		st.feed.Next[0] |= 0x20
+	}
 	n, _, err := st.rd.Read(s.buf, interceptor.Attributes{})
 	if err != nil {
 		return err
